@@ -332,11 +332,11 @@ if __name__ == "__main__":
         "worker: one event = one iteration of the select in dialWorker.loop; theorems hold for every order of request / timer / dial-update / close events and every environment answer carried by the event (existing connection, ranking, back-off table, addConn verdict, clock). wf_run: request ids fresh, each ranking lists an address once (c05_ranker_is_permutation + ma.Unique), a dial update arrives only for a dial in flight and is never ErrDialBackoff itself",
         "worker liveness is stated at quiescence (queue empty, nothing in flight): that the timer fires and every started dial reports are environment hypotheses; promptness of cancellation in wall-clock terms is not modelled",
         "HEADLINE theorems: c05_limiter_monitor_holds is complete (monitor_lim and once_lim accept every model trace whose AddDialJob identities are distinct). c05_worker_monitor_holds is complete as well: monitor_w (clauses 1-5, including 3 'response justified') accepts every model trace of well-formed stimuli; the provenance invariant is Proofs_WorkerResp.PV (per pending request, every candidate is still awaited or known to the monitor as failed / ever in back-off; DConn / DErr statuses in trackedDials imply membership in the monitor's succ / failed-or-back-off sets)",
-        "dialSync: atomic sections are getActiveDial and the locked tail of Dial; theorems over every interleaving of them (c05_sync_refcount, c05_sync_cancel_before_close, c05_sync_leaving_caller_keeps_shared_dial). Which of 'context cancelled' / 'reqch closed' the worker notices first is the scheduler's choice: the conformance accepts both orders, the monitor rejects only 'closed while the context is not cancelled'. The dialSync monitor itself is not proved over model traces (_partial)",
+        "dialSync: atomic sections are getActiveDial and the locked tail of Dial; theorems over every interleaving of them (c05_sync_refcount, c05_sync_cancel_before_close, c05_sync_leaving_caller_keeps_shared_dial). Which of 'context cancelled' / 'reqch closed' the worker notices first is the scheduler's choice: the conformance accepts both orders, the monitor rejects only 'closed while the context is not cancelled'. The dialSync monitor itself is not proved over model traces (the only monitor left partial)",
         "composite: ModelComposite.cstep is an LTS over the atomic sections of dialPeer / dialSync.Dial / the worker loop / the limiter (labels CCall, CDeliver, CTimer, CBegin, CRes, CFin, CCancel, CLeave, CExit) that moves the component models only by their own steps; theorems c05_composite_* hold for every schedule (list of labels). Merged sections: the AddDialJob calls of one timer case are part of that step; a worker whose reqch is closed is frozen except for its exit (its further iterations touch only its own dead state, the back-off table and jobs whose context is already cancelled); back-off, existing connections, rankings and the clock are environment answers carried by the labels",
         "composite correspondence: every recorded DialPeer scenario is replayed by the composite model under the harness-level semantics of SpecComposite (one stimulus, then every enabled step until nothing moves). ACCEPTANCE: when the last caller leaves in the same step in which a dial ends, finishedDial races with the cancellation of the shared context, so a queued job that gets a token may or may not reach its transport before it is cancelled; such transient dial starts/ends may be any subset of those the model's schedule produces; everything else must agree exactly",
         "REPAIRED DEFECT (known_findings/C05.json, status fixed, /repo commit e092243): clearAllPeerDials, run by the deferred exit of a worker that returns late, used to delete the live jobs a newer active dial for the same peer had queued on the per-peer limit. The model transcribes the repaired code (only jobs whose context is done are dropped); c05_composite_no_lost_job now holds for every schedule; the old code is kept as clear_peer_old for the non-vacuity example; the harness scenario c05DialPeerStaleExit (old worker parked in the connection gater) is a fixed regression case on which monitor clause 9 must hold",
-        "PARTIAL (composite monitor): c05_composite_monitor_accepts_partial proves that clauses 1 (returns well-formed; a connection only after a successful dial), 2 (cancelled caller released in the same step with its context error), 3 (no address handed to a transport twice while a caller waits), 4 (caps), 5 (a cancel ends no dial of the others), 6 (nothing left once all returned) and 7 (count of callers inside) of the DialPeer monitor never fire on composite-model traces with fresh caller ids, repetition-free rankings and limits >= 1. The harness-level semantics is presented as a relation (Proofs_CompositeH.hstep) whose moves carry the oracle answers the semantics gives them; its drain runs as many rounds as a bound computed from the state (SpecComposite.phi) and c05_composite_drain_quiescent proves that it ends in a state in which nothing can move. Remaining, judged on implementation traces: clause 9 (missing lemma: after an advance of at least 2 s the dial queue of the live worker is empty; needs ranking delays below 2 s in the well-formedness of stimuli; state-level counterpart for every schedule: c05_composite_no_lost_job); clause 8 (the case ends with every caller returned) is a statement about how the harness ends a case, not about the model. The harness-level semantics lets a cancelled caller take its ctx.Done case first (the harness never has a response pending at that point). Concurrency finer than the listed atomic sections is covered by the correspondence only",
+        "HEADLINE (composite monitor): c05_composite_monitor_accepts proves that the DialPeer monitor (clauses 1-7 and 9) accepts every trace of the composite model under the harness-level semantics, for every sequence of stimuli that satisfies SpecDialPeer.wf_stims_b (fresh caller ids, repetition-free rankings with delays in [0, 2 s), non-negative clock advances; the driver evaluates the same boolean on every recorded case and rejects the case otherwise) and limits >= 1. The harness-level semantics is presented as a relation (Proofs_CompositeH.hstep) whose moves carry the oracle answers the semantics gives them; its drain runs as many rounds as a bound computed from the state (SpecComposite.phi) and c05_composite_drain_quiescent proves that it ends in a state in which nothing can move. Clause 8 (the case ends with every caller returned) is a statement about how the harness ends a case, not about the model. The harness-level semantics lets a cancelled caller take its ctx.Done case first (the harness never has a response pending at that point); dial results of kind progress (TCP connection established, upgrade pending) are not produced by the DialPeer harness and are excluded from the composite headline (the worker-level theorems cover them). Concurrency finer than the listed atomic sections is covered by the correspondence only",
         "ranker: addresses are the tuple of answers of the predicates the ranker evaluates (recorded from the real predicates); sort.Slice is a Section hypothesis (permutes its input), instantiated with stable insertion sort (what sort.Slice runs for <= 12 elements; cases have <= 10 addresses)",
         "DNS resolution, black-hole detector and back-off expiry are inputs (BackoffBase is set to 24h in the worker harness so entries do not expire in a case)",
     ]
